@@ -15,24 +15,46 @@ Inductive jvalue :=
 | JList (l : list jvalue)
 | JDict (kvs : list (jvalue * jvalue)).
 
-Definition py_bool (b : bool) : string := if b then "True" else "False".
+(* json.dumps(s, ensure_ascii=False)[1:-1]: the escapes of a JSON string (RFC 8259); bytes >= 0x80
+   (UTF-8 of non-ASCII text) and DEL pass through *)
+Definition hex_digit (n : nat) : ascii :=
+  ascii_of_nat (if Nat.ltb n 10 then 48 + n else 87 + n).
 
-(* JSON._recursive_get_sql(value) called without kwargs: strings through format_quotes(value, DQUOTE),
-   every other scalar through str(value), no escaping anywhere *)
+Definition json_escape_char (c : ascii) : string :=
+  let n := nat_of_ascii c in
+  if Nat.eqb n 34 then "\"""
+  else if Nat.eqb n 92 then "\\"
+  else if Nat.eqb n 8 then "\b"
+  else if Nat.eqb n 9 then "\t"
+  else if Nat.eqb n 10 then "\n"
+  else if Nat.eqb n 12 then "\f"
+  else if Nat.eqb n 13 then "\r"
+  else if Nat.ltb n 32 then "\u00" ++ String (hex_digit (Nat.div n 16)) (String (hex_digit (Nat.modulo n 16)) "")
+  else String c "".
+
+Fixpoint json_escape (s : string) : string :=
+  match s with
+  | EmptyString => EmptyString
+  | String c r => json_escape_char c ++ json_escape r
+  end.
+
+(* JSON._recursive_get_sql(value) called without kwargs: strings escaped and wrapped by
+   format_quotes(.., DQUOTE); None -> null, bool -> true/false; every other scalar through str(value) *)
 Fixpoint json_text (v : jvalue) : string :=
   match v with
-  | JStr s => fq (Some """") s
+  | JStr s => fq (Some """") (json_escape s)
   | JInt z => Z_to_string z
   | JFloat t => t
-  | JBool b => py_bool b
-  | JNull => "None"
+  | JBool b => if b then "true" else "false"
+  | JNull => "null"
   | JList l => "[" ++ join "," (map json_text l) ++ "]"
   | JDict kvs =>
       "{" ++ join "," (map (fun kv => match kv with (k, x) => json_text k ++ ":" ++ json_text x end) kvs) ++ "}"
   end.
 
-(* JSON.get_sql(secondary_quote_char): format_quotes(text, secondary_quote_char), alias None *)
-Definition json_sql (sq : option string) (v : jvalue) : string := fq sq (json_text v).
+(* JSON.get_sql(secondary_quote_char): quote = secondary_quote_char or "";
+   format_quotes(text.replace(quote, quote * 2), quote), alias None *)
+Definition json_sql (sq : option string) (v : jvalue) : string := fq sq (double_quote sq (json_text v)).
 
 (* the keyword context a query builder hands to every term: quote_char, secondary_quote_char,
    alias_quote_char, dialect.  JSON.get_sql(secondary_quote_char, **kwargs) calls
@@ -57,29 +79,8 @@ Definition class_ctxs : list (string * qctx) :=
                     (name, mkCtx q sq aq (match dn with Some n => dialect_of_name n | None => None end))
                 end) query_class_ctx.
 
-(* ---- specification: RFC 8259 text of the value (the layout of json.dumps with compact
+(* ---- specification: RFC 8259 text of the value (string escapes: [json_escape] above) (the layout of json.dumps with compact
         separators and ensure_ascii=False), and a standard SQL string literal around it ---- *)
-Definition hex_digit (n : nat) : ascii :=
-  ascii_of_nat (if Nat.ltb n 10 then 48 + n else 87 + n).
-
-Definition json_escape_char (c : ascii) : string :=
-  let n := nat_of_ascii c in
-  if Nat.eqb n 34 then "\"""
-  else if Nat.eqb n 92 then "\\"
-  else if Nat.eqb n 8 then "\b"
-  else if Nat.eqb n 9 then "\t"
-  else if Nat.eqb n 10 then "\n"
-  else if Nat.eqb n 12 then "\f"
-  else if Nat.eqb n 13 then "\r"
-  else if Nat.ltb n 32 then "\u00" ++ String (hex_digit (Nat.div n 16)) (String (hex_digit (Nat.modulo n 16)) "")
-  else String c "".
-
-Fixpoint json_escape (s : string) : string :=
-  match s with
-  | EmptyString => EmptyString
-  | String c r => json_escape_char c ++ json_escape r
-  end.
-
 Definition json_string_spec (s : string) : string := """" ++ json_escape s ++ """".
 
 (* JSON object keys must be strings; json.dumps coerces the other scalar keys *)
@@ -127,13 +128,22 @@ Definition sql_decode (s : string) : option string :=
   | EmptyString => None
   end.
 
-(* ---- the fragment on which JSON.get_sql is right ---- *)
+(* ---- the quantifier of the property: JSON-serialisable values, i.e. every dict key is a string ---- *)
+Definition is_jstr (v : jvalue) : bool := match v with JStr _ => true | _ => false end.
+
+Fixpoint jkeys (v : jvalue) : bool :=
+  match v with
+  | JList l => forallb jkeys l
+  | JDict kvs => forallb (fun kv => match kv with (k, x) => is_jstr k && jkeys x end) kvs
+  | _ => true
+  end.
+
+(* the former fragment (before pypika 3c1f928 / 662043c / 4d1a379), kept to state that nothing was lost *)
 Definition plain_char (c : ascii) : bool :=
   let n := nat_of_ascii c in
   Nat.leb 32 n && negb (Nat.eqb n 34) && negb (Nat.eqb n 92) && negb (Nat.eqb n 39).
 Definition num_char (c : ascii) : bool :=
   is_digit c || ch c "+" || ch c "-" || ch c "." || ch c "e" || ch c "E".
-Definition is_jstr (v : jvalue) : bool := match v with JStr _ => true | _ => false end.
 
 Fixpoint jfrag (v : jvalue) : bool :=
   match v with
